@@ -93,7 +93,8 @@ Proof.
   - dbind H as [s1 v1]. apply IHa in E.
     destruct v1; try discriminate;
       try (destruct (py_own_attr f); [discriminate|]);
-      try (injection H as <- _; exact E).
+      try (injection H as <- _; exact E);
+      try (destruct (String.eqb f "id"); [injection H as <- _; exact E|discriminate]).
     + destruct (nth_error (heap s1) h); [|discriminate].
       destruct (row_attr c f); injection H as <- _; exact E.
     + destruct (String.eqb f "id"); [|discriminate]. dbind H as [s2 i].
@@ -140,6 +141,7 @@ Proof.
       destruct (row_attr c p); [|discriminate]. injection E as <- _. apply sp_refl.
     + destruct (String.eqb p "id"); [|discriminate]. dbind E as [s2 i].
       injection E as <- _. apply touch_slot_sp in E0. exact E0.
+    + destruct (String.eqb p "id"); [|discriminate]. injection E as <- _. apply sp_refl.
 Qed.
 
 Lemma reference_sp e path s s' v : reference e path s = Ok (s', v) -> same_persist s s'.
@@ -152,7 +154,11 @@ Proof.
   - injection H as <- _. exact E0.
   - dbind H as [s2 i]. injection H as <- _.
     apply touch_slot_sp in E1. eapply sp_trans; eassumption.
+  - injection H as <- _. exact E0.
 Qed.
+
+Lemma rnd_only_sp s s' : rnd_only s s' -> same_persist s s'.
+Proof. intros [x ->]. split; reflexivity. Qed.
 
 Lemma flatten_fields_sp fs : forall s s' l, flatten_fields s fs = Ok (s', l) -> same_persist s s'.
 Proof.
@@ -238,10 +244,11 @@ Proof.
       cbn [task_nf]. rewrite tpl_nf_unfold. destruct c; cbn [top_stmt_ok stmt_nf] in Hnf.
       * rewrite andb_true_r in Eo. rewrite Eo. exact Hnf.
       * rewrite tpl_nf_unfold in Hnf. exact Hnf.
-    + dbind H as [s1 r1]. injection H as <- _. apply IH in E.
-      * destruct E as [a b]. eapply sp_trans; [split; [exact a|exact b]|].
-        eapply sp_trans; [apply pop_frame_sp|apply set_var_sp].
-      * cbn [task_nf]. destruct c; exact Hnf.
+    + assert (Hd : fdef_nf d = true) by (destruct c; exact Hnf).
+      destruct d; try discriminate;
+        (dbind H as [s1 r1]; injection H as <- _; apply IH in E; [|exact Hd];
+         destruct E as [a b]; (eapply sp_trans; [split; [exact a|exact b]|]);
+         eapply sp_trans; [apply pop_frame_sp|apply set_var_sp]).
   - rewrite tpl_nf_unfold in Hnf. apply andb_true_iff in Hnf. destruct Hnf as [Ho Hb].
     unfold tpl_body_nf in Hb. apply andb_true_iff in Hb. destruct Hb as [Hb Hfr].
     apply andb_true_iff in Hb. destruct Hb as [Hcnt Hfs].
@@ -266,12 +273,12 @@ Proof.
     destruct (new_row_id s (t_table t) (t_nick t)) as [s1 id] eqn:Hid.
     dbind H as [s4 r4].
     destruct (nth_error (heap s4) (length (heap s1))) as [c|]; [|discriminate].
-    dbind H as s6. dbind H as [s7 r7]. injection H as <- _.
-    apply IH in E; [|exact Hfs]. apply IH in E1; [|cbn [task_nf]; apply stmts_nf_top; exact Hfr].
-    apply write_row_sp in E0.
+    dbind H as s5h. dbind H as s6. dbind H as [s7 r7]. injection H as <- _.
+    apply IH in E; [|exact Hfs]. apply IH in E2; [|cbn [task_nf]; apply stmts_nf_top; exact Hfr].
+    apply write_row_sp in E1. apply remember_history_rnd in E0. apply rnd_only_sp in E0.
     pose proof (new_row_id_sp s (t_table t) (t_nick t)) as H0. rewrite Hid in H0. cbn [fst] in H0.
     eapply sp_trans; [exact H0|].
-    eapply sp_trans; [|exact E1]. eapply sp_trans; [|exact E0].
+    eapply sp_trans; [|exact E2]. eapply sp_trans; [|exact E1]. eapply sp_trans; [|exact E0].
     eapply sp_trans; [|apply remember_deps_sp]. eapply sp_trans; [|exact E].
     rewrite Honce. eapply sp_trans; [|apply register_object_sp].
     eapply sp_trans; [|apply set_obj_sp]. split; reflexivity.
@@ -280,13 +287,14 @@ Proof.
     unfold fields_nf in Hnf. rewrite forallb_cons in Hnf. apply andb_true_iff in Hnf. destruct Hnf as [H1 H2].
     dbind H as [s1 v]. apply IH in E; [|exact H1]. apply IH in H; [|exact H2].
     eapply sp_trans; [exact E|]. eapply sp_trans; [apply set_field_sp|exact H].
-  - destruct d as [z|x|ps|path|t].
+  - destruct d as [z|x|ps|path|t|to].
     + injection H as <- _. apply sp_refl.
     + destruct (version e =? 3); [injection H as <- _; apply sp_refl|].
       dbind H as w0. injection H as <- _. apply sp_refl.
     + dbind H as [s1 v]. injection H as <- _. apply render_formula_sp in E. exact E.
     + dbind H as [s1 v]. injection H as <- _. apply reference_sp in E. exact E.
     + apply IH in H; [exact H|exact Hnf].
+    + dbind H as [s1 v]. injection H as <- _. apply rnd_only_sp. eapply random_reference_rnd. exact E.
 Qed.
 
 (* ------------------------------------------------------------------ C06 statements *)
@@ -353,14 +361,15 @@ Proof.
     destruct (IH _ _ H x c1 Hc1) as (c' & Hc' & j1 & j2 & j3). exists c'. splits; congruence.
 Qed.
 
-Theorem singletons_survive_continuation e s c :
-  save s = Ok c ->
-  p_nicks (load e c) = p_nicks s /\ p_tables (load e c) = p_tables s /\
+Theorem singletons_survive_continuation e s c s0 :
+  save s = Ok c -> load e c = Ok s0 ->
+  p_nicks s0 = p_nicks s /\ p_tables s0 = p_tables s /\
   forall h cl, nth_error (heap s) h = Some cl ->
-    exists c', nth_error (heap (load e c)) h = Some c' /\
+    exists c', nth_error (heap s0) h = Some c' /\
                c_table c' = c_table cl /\ c_id c' = c_id cl /\ c_index c' = c_index cl.
 Proof.
-  unfold save. intros H. dbind H as h1. injection H as <-.
-  cbn [load p_nicks p_tables heap k_p_nicks k_p_tables k_heap]. splits; try reflexivity.
+  unfold save. intros H Hl. dbind H as h1. injection H as <-.
+  destruct (load_spec _ _ _ Hl) as [hh ->].
+  cbn [p_nicks p_tables heap k_p_nicks k_p_tables k_heap]. splits; try reflexivity.
   intros h cl Hc. eapply clean_handles_ext; eassumption.
 Qed.
